@@ -101,8 +101,8 @@ theorem C01_defect_xmlns_injection :
   decide +kernel
 
 /-- Consequence: two trees that differ only in their string payloads are written to documents
-with the same element structure. -/
-theorem payload_cannot_change_structure (t u : Node) (ht : NamesOK t) (hu : NamesOK u)
+with the same element structure.  PARTIAL for the same reason (`NsValuesOK`). -/
+theorem payload_cannot_change_structure_partial (t u : Node) (ht : NamesOK t) (hu : NamesOK u)
     (nt : NsValuesOK t) (nu : NsValuesOK u)
     (n : Str) (as : List (Str × Str)) (ks : List Node) (et : t = .elem n as ks)
     (n' : Str) (as' : List (Str × Str)) (ks' : List Node) (eu : u = .elem n' as' ks')
@@ -118,9 +118,16 @@ theorem render_shape_indep_partial (n : Str) (as : List (Str × Str)) (ks : List
     (parse (render (.elem n as ks))).map shape = some (shape (view (.elem n as ks))) := by
   rw [parse_render_view n as ks h hns, Option.map_some]
 
+/-- `view` spelled out with the shared `normalize` of Qx/Xml/Canon.lean: remove the characters the
+writer drops (`legalize`), merge adjacent text and drop empty text (`normalize`), drop the text
+runs that are blank (`dropBlank`, QDom's white-space rule). -/
+theorem view_eq_normalize (t : Node) : view t = dropBlank (normalize (legalize t)) := view_eq t
+
 /-- Text layer half of "serialize-then-parse is the identity", at character level: a tree whose
 names are names, whose characters are all XML-legal, whose namespace URIs contain none of `" < &`,
-whose text nodes are non-blank and never adjacent is read back exactly. -/
+whose text nodes are non-blank and never adjacent is read back exactly.  (The namespace-URI clause
+of `WellFormed` exists only because of `C01_defect_xmlns_injection`; CR/LF/TAB need no exclusion:
+Qt 5.15's QDom keeps them, measured by the harness.) -/
 theorem parse_render (n : Str) (as : List (Str × Str)) (ks : List Node)
     (h : WellFormed (.elem n as ks)) :
     parse (render (.elem n as ks)) = some (.elem n as ks) := by
